@@ -4,10 +4,11 @@ import hashlib
 import json
 import random
 
-from .. import common, runner, build13
+from .. import common, runner, build13, hsm13
 from ..runner import Exploration, Failure
 
 KNOWN_REMOVE_SIG = 'C13.flat.remove_transition.selector-not-a-string'
+KNOWN_NESTED_REMOVE_SIG = 'C13.nested.remove_transition.empty-entries-left'
 
 
 def fingerprint(case):
@@ -174,7 +175,133 @@ def chunk(stream, seed, idx, n):
     return ex
 
 
+# ---------------------------------------------------------------------------------------------
+# hierarchical machines (differential only)
+# ---------------------------------------------------------------------------------------------
+
+def hvariants_of(case):
+    return [hsm13.derive_h(case, 0, identity=True)] + [hsm13.derive_h(case, s) for s in case['vseeds']]
+
+
+def hevaluate(case):
+    vs = hvariants_of(case)
+    runs = [hsm13.RunH(case, v).run() for v in vs]
+    intros = [None if r.error else r.introspect() for r in runs]
+    return vs, runs, intros
+
+
+def hjudge(case, vs, runs, intros):
+    fails = []
+
+    def fail(what, details, sig=None):
+        fails.append(Failure('monitor', what, case, details, signature=sig or ('C13.nested.' + what)))
+    if runs[0].error:
+        fail('canonical_raises', {'error': runs[0].error})
+        return fails
+    for i in range(1, len(vs)):
+        a, b = runs[0], runs[i]
+        if b.error:
+            # re-adding a transition for a trigger whose event was emptied but not deleted: the trigger is not
+            # re-attached to the model (same root cause as the emptied entries)
+            readd = vs[i]['detours'] and b.error[0] == 'AttributeError' and "has no attribute 'e" in b.error[1]
+            fail('variant_raises', {'variant': i, 'error': b.error, 'plan': vs[i]},
+                 KNOWN_NESTED_REMOVE_SIG if readd else None)
+            continue
+        sig = None
+        if intros[0] != intros[i]:
+            if vs[i]['detours'] and hsm13.drop_empty(intros[0]) == hsm13.drop_empty(intros[i]):
+                sig = KNOWN_NESTED_REMOVE_SIG       # the only difference: emptied entries left behind by remove
+            fail('variant_structure', {'variant': i, 'canonical': intros[0], 'variant_machine': intros[i],
+                                       'plan': vs[i]}, sig)
+        if a.items != b.items or a.final() != b.final():
+            k = next((j for j, (x, y) in enumerate(zip(a.items, b.items)) if x != y), min(len(a.items), len(b.items)))
+            fail('variant_trace', {'variant': i, 'first_difference_at': k,
+                                   'canonical': [common.show_item(x) for x in a.items[max(0, k - 4):k + 3]],
+                                   'variant_trace': [common.show_item(x) for x in b.items[max(0, k - 4):k + 3]],
+                                   'plan': vs[i]}, sig)
+    for i, r in enumerate(runs):
+        # (argument passing on hierarchical machines is C03's business: finalize callbacks of an event that no
+        # state handles see `event_data.event is None`; only unexpected state values are reported here)
+        odd = [x for x in r.bad if x[0] == 'odd-state']
+        if odd:
+            fail('state_value', {'variant': i, 'bad': odd[:5]})
+    return fails
+
+
+def hchunk(stream, seed, idx, n):
+    rng = random.Random('C13/%s/%d/%d' % (stream, seed, idx))
+    kn = STREAMS[stream]()
+    ex = Exploration()
+    for _ in range(n):
+        case = hsm13.gen_hcase(rng, kn)
+        vs, runs, intros = hevaluate(case)
+        ex.evaluations += 1
+        ex.traces_validated += sum(1 for r in runs if not r.error)
+        distinct = len(set(json.dumps(v, sort_keys=True) for v in vs))
+        if distinct >= 3 and not any(r.error for r in runs) and any(i[0] == 'ret' and i[2] == 1 for i in runs[0].items):
+            ex.nontrivial.add(hashlib.sha1(json.dumps([case['top'], case['transitions'], case['history']],
+                                                      sort_keys=True).encode()).hexdigest()[:16])
+            if not ex.samples:
+                ex.samples.append({'stream': stream, 'top': case['top'], 'plan': vs[1]['plan'][:6],
+                                   'trace': [common.show_item(i) for i in runs[0].items[:20]]})
+        h = ex.stats.setdefault('nested_forms', {})
+        emb = set(n_['id'] for n_ in case['top'] if n_['embed'])
+        for v in vs[1:]:
+            for k_, p in v['plan']:
+                keys = ['rep:' + p['rep'], 'key:' + p['key'], 'deferred' if p['defer_from'] is not None else 'inline']
+                if k_ in emb:
+                    keys.append('embed:' + p['embed'])
+                for key in keys:
+                    h[key] = h.get(key, 0) + 1
+        ex.stats['embedded_machine_cases'] = ex.stats.get('embedded_machine_cases', 0) + int(
+            any(n_['embed'] for n_ in case['top']))
+        for f in hjudge(case, vs, runs, intros):
+            f.case = {'stream': stream, 'case': case}
+            ex.failures.append(f)
+    return ex
+
+
+def hshrink_steps(payload):
+    case = payload['case']
+
+    def mk(c):
+        return {'stream': payload['stream'], 'case': c}
+    for i in range(len(case['vseeds'])):
+        if len(case['vseeds']) > 1:
+            c = copy.deepcopy(case)
+            del c['vseeds'][i]
+            yield mk(c)
+    for key in ('history', 'transitions', 'script'):
+        for i in range(len(case[key])):
+            if key != 'history' or len(case[key]) > 1:
+                c = copy.deepcopy(case)
+                del c[key][i]
+                yield mk(c)
+    for i, n in enumerate(case['top']):
+        if n['id'] != case['initial'] and len(case['top']) > 1:
+            c = copy.deepcopy(case)
+            del c['top'][i]
+            yield mk(c)
+        if n['embed']:
+            c = copy.deepcopy(case)
+            c['top'][i]['embed'] = None
+            yield mk(c)
+            for key in ('local', 'exits'):
+                for j in range(len(n['embed'][key])):
+                    c = copy.deepcopy(case)
+                    del c['top'][i]['embed'][key][j]
+                    yield mk(c)
+    for s in range(1, 6):
+        c = copy.deepcopy(case)
+        c['vseeds'] = [s]
+        if c['vseeds'] != case['vseeds']:
+            yield mk(c)
+
+
 def rejudge(payload):
+    if payload['stream'].startswith('nested'):
+        vs, runs, intros = hevaluate(payload['case'])
+        return vs, runs, hjudge(payload['case'], vs, runs, intros)
     case = payload['case']
     (vs, runs, intros, builds, eq), = evaluate([case])
     return vs, runs, judge(case, vs, runs, intros, builds, eq)
@@ -223,14 +350,23 @@ def shrink_steps(payload):
             yield mk(c)
 
 
+def any_chunk(stream, seed, idx, n):
+    return (hchunk if stream.startswith('nested') else chunk)(stream, seed, idx, n)
+
+
 STREAMS = {
     'flat': lambda: build13.Knobs(),
     # the documented selectors of Machine.remove_transition (str, Enum or State) in remove detours
     'flat-remove-selectors': lambda: build13.Knobs(remove_reps=('enum', 'obj'), max_items=4),
+    'nested': lambda: hsm13.HKnobs(),
+    # add-then-remove detours on hierarchical machines
+    'nested-remove': lambda: hsm13.HKnobs(detours=True, max_transitions=4),
 }
 BUDGET = {   # stream -> (quick: chunks, per chunk), (thorough: chunks, per chunk)
     'flat': ((16, 60), (64, 400)),
     'flat-remove-selectors': ((4, 15), (8, 50)),
+    'nested': ((12, 40), (48, 250)),
+    'nested-remove': ((4, 15), (8, 50)),
 }
 
 
@@ -276,21 +412,25 @@ class C13(runner.Check):
             nch, per = q if tier == 'quick' else t
             payloads += [(s, seed, i, per) for i in range(nch)]
         ex = Exploration()
-        for part in runner.parallel(chunk, payloads):
+        for part in runner.parallel(any_chunk, payloads):
             ex.merge(part)
-        done = set()
-        for f in ex.failures:
-            key = (f.kind, f.what, f.signature)
-            if key in done:
-                continue
-            done.add(key)
-            self.shrink_failure(f)
+        # shrink what will be reported: the first property failure that is not a listed finding, and the
+        # first correspondence failure
+        known = set(k.get('signature') for k in self.known())
+        for pick in (lambda f: f.kind == 'monitor' and f.signature not in known, lambda f: f.kind != 'monitor'):
+            cands = [f for f in ex.failures if pick(f)]
+            if cands:
+                first = cands[0]
+                ex.failures.remove(first)
+                ex.failures.insert(0, first)
+                self.shrink_failure(first)
         return ex
 
     def shrink_failure(self, f):
         def fails(payload):
             return any(x.kind == f.kind and x.what == f.what and x.signature == f.signature for x in rejudge(payload)[2])
-        f.case = runner.shrink(f.case, fails, shrink_steps, budget=250)
+        steps = hshrink_steps if f.case['stream'].startswith('nested') else shrink_steps
+        f.case = runner.shrink(f.case, fails, steps, budget=120)
         for x in rejudge(f.case)[2]:
             if x.kind == f.kind and x.what == f.what:
                 f.details = x.details
@@ -298,8 +438,8 @@ class C13(runner.Check):
 
     def search(self, tier, seed, failures):
         found = []
-        payloads = [('flat', seed + 7919, i, 150) for i in range(32)]
-        for part in runner.parallel(chunk, payloads):
+        payloads = [('flat', seed + 7919, i, 150) for i in range(24)] + [('nested', seed + 7919, i, 100) for i in range(8)]
+        for part in runner.parallel(any_chunk, payloads):
             found += [f for f in part.failures if f.kind == 'monitor']
         for f in found[:1]:
             self.shrink_failure(f)
